@@ -407,12 +407,18 @@ def fam_stash(g):
     path = rng.choice(files) if files else None
     pos = g.choose_pos(["none", "above", "below", "interleaved", "other_file"], "stash_pop_shift",
                        banned=("above", "interleaved"))
-    yield from g.some_edits(n_ai=(1, 2), n_human=(0, 1), path=path)
+    last = None
+    for op in g.some_edits(n_ai=(1, 2), n_human=(0, 1), path=path):
+        last = op
+        yield op
+    if g.gated("hooks_stash_apply") and last is not None and last["who"] == HUMAN:
+        # known finding: hooks mode does not checkpoint before a stash, a trailing human edit is missed
+        yield g.ai_edit(path=path, kinds=["insert", "append"])
     yield g.git("stash", "push", "-q", rewrite=True)
     if pos != "none":
         yield upstream_change(g, pos, path, who=HUMAN)
         yield from g.commit_all()
-    yield g.git("stash", rng.choice(["pop", "apply"]), "-q", rewrite=True)
+    yield g.git("stash", "pop" if g.gated("hooks_stash_apply") else rng.choice(["pop", "apply"]), "-q", rewrite=True)
     if g.has_conflicts():
         # the pop failed (exit 1): what it would have restored is no longer "pending attribution"
         g.ex.probe("stash.pop_conflict")
